@@ -46,6 +46,8 @@ class Engine:
         self.unknowns = 0
         self.steps = 0
         self._live = False
+        self._known = {}
+        self._keep = []
 
     # ---- solver ----
     def check(self, *extra, pc=None):
@@ -86,6 +88,9 @@ class Engine:
             return True
         if z3.is_false(cond):
             return False
+        key = cond.get_id()
+        if key in self._known:           # the same condition was already decided on this path
+            return self._known[key]
         if self.pos < len(self.decisions):
             take = self.decisions[self.pos][0]
         else:
@@ -106,6 +111,8 @@ class Engine:
                 raise PathAbort()
         self.pos += 1
         self._add_pc(cond if take else z3.Not(cond))
+        self._known[key] = take
+        self._keep.append(cond)
         return take
 
     def assume(self, cond):
@@ -128,6 +135,8 @@ class Engine:
         while True:
             self.pos = 0
             self.pc = list(assumptions)
+            self._known = {}
+            self._keep = []
             Engine.cur = self
             self.s.push()
             for c in self.pc:
@@ -445,6 +454,16 @@ class SymInt:
 
     def __bool__(self):
         return Engine.cur.branch(self.e != 0)
+
+    def bit_length(self):
+        """int.bit_length() of a non-negative symbolic int (exact: comparison chain against powers of two)."""
+        if self.lo < 0:
+            raise EngineLimit("bit_length of a possibly negative symbolic int")
+        n = max(1, self.hi.bit_length())
+        e = z3.BitVecVal(0, W)
+        for k in range(n):
+            e = z3.If(self.e >= (1 << k), z3.BitVecVal(k + 1, W), e)
+        return SymInt._mk(e, self.lo.bit_length(), self.hi.bit_length())
 
     def to_bytes(self, length=1, byteorder="big", *, signed=False):
         if not signed and self.lo < 0:
@@ -859,26 +878,53 @@ class ForkingRange:
 
 
 class StructStub:
-    """struct.pack/unpack for 'f'/'d' (also '<f'/'<d'): native little-endian IEEE-754 image (x86-64)."""
+    """struct.pack/unpack for a single 'f'/'d' or integer code (b B h H i I l L q Q), native/little-endian byte order
+    (x86-64): IEEE-754 image for floats, two's-complement image for ints."""
 
     error = _struct.error
+    INTS = {"b": (1, True), "B": (1, False), "h": (2, True), "H": (2, False), "i": (4, True), "I": (4, False),
+            "l": (8, True), "L": (8, False), "q": (8, True), "Q": (8, False)}
+
+    @staticmethod
+    def _code(fmt):
+        f = fmt.lstrip("<=@")
+        if fmt.startswith((">", "!")) or len(f) != 1 or (f not in ("f", "d") and f not in StructStub.INTS):
+            raise EngineLimit(f"struct format {fmt!r} not modelled")
+        if f in ("l", "L") and fmt.startswith(("<", "=")):
+            return f, 4
+        return f, ({"f": 4, "d": 8}.get(f) or StructStub.INTS[f][0])
 
     @staticmethod
     def _n(fmt):
-        f = fmt.lstrip("<=@")
-        if f not in ("f", "d") or fmt.startswith((">", "!")):
-            raise EngineLimit(f"struct format {fmt!r} not modelled")
-        return {"f": 4, "d": 8}[f]
+        return StructStub._code(fmt)[1]
 
     @staticmethod
-    def pack(fmt, v):
-        if type(v) is not SymFloat:
-            return _struct.pack(fmt, v)
-        n = StructStub._n(fmt)
-        if v.nbits != 8 * n:
-            raise EngineLimit("float width mismatch in struct.pack")
+    def calcsize(fmt):
+        return _struct.calcsize(fmt)
+
+    @staticmethod
+    def pack(fmt, *vs):
+        if all(type(v) not in (SymFloat, SymInt) for v in vs):
+            return _struct.pack(fmt, *vs)
+        if len(vs) != 1:
+            raise EngineLimit("struct.pack with several symbolic values")
+        v = vs[0]
+        f, n = StructStub._code(fmt)
+        if type(v) is SymFloat:
+            if f not in ("f", "d") or v.nbits != 8 * n:
+                raise EngineLimit("float width mismatch in struct.pack")
+            e = v.e
+        else:
+            if f in ("f", "d"):
+                raise EngineLimit("struct.pack of a symbolic int as float")
+            signed = StructStub.INTS[f][1]
+            lo, hi = (-(1 << (8 * n - 1)), (1 << (8 * n - 1)) - 1) if signed else (0, (1 << (8 * n)) - 1)
+            if v.lo < lo or v.hi > hi:
+                if (v < lo) or (v > hi):
+                    raise _struct.error("argument out of range")
+            e = z3.Extract(8 * n - 1, 0, v.e)
         return SymByteArray(
-            SymInt._mk(z3.ZeroExt(W - 8, z3.Extract(8 * i + 7, 8 * i, v.e)), 0, 255) for i in range(n)
+            SymInt._mk(z3.ZeroExt(W - 8, z3.Extract(8 * i + 7, 8 * i, e)), 0, 255) for i in range(n)
         )
 
     @staticmethod
@@ -886,11 +932,16 @@ class StructStub:
         b = list(b)
         if all(type(x) is int for x in b):
             return _struct.unpack(fmt, bytes(b))
-        n = StructStub._n(fmt)
+        f, n = StructStub._code(fmt)
         if len(b) != n:
             raise _struct.error(f"unpack requires a buffer of {n} bytes")
         parts = [z3.Extract(7, 0, z3of(x)) for x in reversed(b)]
-        return (SymFloat(z3.simplify(z3.Concat(*parts)), 8 * n),)
+        word = z3.simplify(z3.Concat(*parts)) if n > 1 else parts[0]
+        if f in ("f", "d"):
+            return (SymFloat(word, 8 * n),)
+        if StructStub.INTS[f][1]:
+            return (SymInt._mk(z3.SignExt(W - 8 * n, word), -(1 << (8 * n - 1)), (1 << (8 * n - 1)) - 1),)
+        return (SymInt._mk(z3.ZeroExt(W - 8 * n, word), 0, (1 << (8 * n)) - 1),)
 
 
 class _IntMeta(type):
